@@ -13,7 +13,15 @@ SPECIAL_FILES = ["hg:hg.mozilla.org/mozilla-central:widget/cocoa/nsAppShell.mm:9
                  "/src/demo/alpha.c", "/src/demo/sub dir/beta.h", "relative/gamma.cpp", "C:\\win\\delta.c"]
 
 GEN_MODULES = [("genmod1.so", "AAAA0000BBBB1111CCCC2222DDDD33330"), ("genmod2", "0123456789ABCDEF0123456789ABCDEF1"),
-               ("genmod3.so", "0F0E0D0C0B0A090807060504030201002")]
+               ("genmod3.so", "0F0E0D0C0B0A090807060504030201002"),
+               # legal breakpad ids that are not 33 characters long: an age above 0xf (34 and 35 characters) and the PDB 2.0 form (8-digit timestamp + age)
+               ("genmod4.so", "AAAA0000BBBB1111CCCC2222DDDD33331A"), ("genmod5.so", "0123456789ABCDEF0123456789ABCDEF100"), ("genmod6.pdb", "3E7B1C2A1"), ("genmod7.pdb", "5F00D1E2FF")]
+
+
+def canon_id(bid):
+    """the spelling DebugId::breakpad() prints (and the symbol directory uses): upper-case id, lower-case age"""
+    k = 32 if len(bid) > 32 else 8
+    return bid[:k].upper() + bid[k:].lower()
 
 
 def _gen_sym_odd(name, bid):
@@ -105,7 +113,7 @@ class Env:
             self.modules.append({"debugName": h[1], "breakpadId": h[2], "offsets": offs + [0, 3, 0xFFFFFFF0], "kind": "fixture"})
         for v, (name, bid) in enumerate(GEN_MODULES):
             text, offsets = _gen_sym(name, bid, v)
-            p = os.path.join(self.dir, name, bid, name + ".sym")
+            p = os.path.join(self.dir, name, canon_id(bid), (name[:-4] if name.endswith(".pdb") else name) + ".sym")
             os.makedirs(os.path.dirname(p))
             open(p, "w").write(text)
             self.modules.append({"debugName": name, "breakpadId": bid, "offsets": offsets, "kind": "generated"})
